@@ -126,13 +126,19 @@ def d2_2(ctx):
     a = ctx.folder.eval(vals.get("_and_mask"), c.module) if "_and_mask" in vals else None
     o = ctx.folder.eval(vals.get("_or_mask"), c.module) if "_or_mask" in vals else None
     ctx.check(a == 0xFFFF_FFFF_FFFF_FFFF and o == 0, ckey(c.key + ".__init__", "initial-masks"), init, "AND starts all ones (64 bit), OR starts zero", f"initial masks AND={a!r} OR={o!r}: untouched bits would be modified", and_mask=a, or_mask=o)
-    ms = vals.get("_mask_size")
-    good = False
-    if ms is not None:
-        look = [n for n in walk(ms) if (isinstance(n, ast.Call) and attr_path(n.func) == "DataTypes.get" and n.args and attr_path(n.args[0]) == "self.data_type") or (isinstance(n, ast.Subscript) and attr_path(n.value) == "DataTypes" and attr_path(n.slice) == "self.data_type")]
-        size_attr = (isinstance(ms, ast.Attribute) and ms.attr == "size" and look and ms.value is look[0]) or (isinstance(ms, ast.Call) and call_name(ms) == "getattr" and len(ms.args) >= 2 and look and ms.args[0] is look[0] and ctx.folder.eval(ms.args[1], c.module) == "size")
-        good = bool(look) and bool(size_attr)
-    ctx.check(good, ckey(c.key + ".__init__", "mask-size"), init, "mask size = size of the tag's integer type", f"mask size is `{src(ms) if ms is not None else None}`, not the tag type's size")
+    # mask size = byte size of the tag's integer type (folded on witness tags; a structure has none and is refused)
+    from ..miniinterp import fold_object
+    from .packets import _hook as _packet_hook
+
+    sizes = {}
+    for tname, want in (("SINT", 1), ("INT", 2), ("DINT", 4), ("LINT", 8), ("DWORD", 4), ("USINT", 1), ("UDINT", 4)):
+        k_, o_ = fold_object(ctx, c, [7, "T", {"tag_type": "atomic", "data_type_name": tname, "data_type": tname}, 1, False], {}, _packet_hook)
+        sizes[tname] = (k_, o_.__dict__.get("_mask_size") if k_ == "return" else o_, want)
+    if any(k_ == "unknown" for k_, _, _ in sizes.values()):
+        ctx.undecided(ckey(c.key + ".__init__", "mask-size"), init, f"constructor not foldable: {[v for v in sizes.values() if v[0] == 'unknown'][:1]}")
+    else:
+        bad = {t: v[1] for t, v in sizes.items() if v[0] != "return" or v[1] != v[2]}
+        ctx.check(not bad, ckey(c.key + ".__init__", "mask-size"), init, "mask size = size of the tag's integer type (SINT 1, INT 2, DINT/DWORD 4, LINT 8)", f"mask size deviates from the tag type's size: {bad}")
     sb = c.methods["set_bit"]
     bit, val = sb.args.args[1].arg, sb.args.args[2].arg
     branches = [n for n in sb.body if isinstance(n, ast.If) and atom_name(n.test) == val]
